@@ -153,6 +153,9 @@ type App struct {
 	OwnedExtra                                                 map[string]bool
 	NotOwned                                                   map[string]bool
 	DeliverErr                                                 bool
+	// CBKeep, if set, names the single activity type whose application hook (wrapped or 'other')
+	// is configured; all other hooks are nil.
+	CBKeep string
 	// ServePage, if set, supplies the page served by GetInbox / GetOutbox.
 	ServePage func(iri string) (vocab.ActivityStreamsOrderedCollectionPage, error)
 
@@ -196,6 +199,7 @@ func New() *App {
 func (a *App) Clone() *App {
 	b := *a
 	b.LocalScheme = a.LocalScheme
+	b.CBKeep = a.CBKeep
 	b.Store = make(map[string][]byte, len(a.Store))
 	for k, v := range a.Store {
 		b.Store[k] = v // values are never mutated in place
